@@ -129,6 +129,31 @@ def w_direct(ctx, rng, idx):
                         ctx.violation("bitstring-sampling", f"{cnt.get(b, 0)} x '{b}' in {N} shots, probability {p:.5f}",
                                       "bitstring-sampling")
                         break
+                # the same with detection errors: every bit of every shot is flipped independently (0 read as 1 with
+                # p_false_pos, 1 read as 0 with p_false_neg); the expected distribution is the convolution of `want`
+                pfp, pfn = [(0.3, 0.0), (0.0, 0.25), (0.1, 0.2), (0.5, 0.5)][(idx // 5) % 4]
+                werr: dict = {}
+                for b, p in want.items():
+                    outs = {"": p}
+                    for bit in b:
+                        stay = 1 - (pfn if bit == "1" else pfp)
+                        outs = {k + x: v * (stay if x == bit else 1 - stay) for k, v in outs.items() for x in "01"}
+                    for k, v in outs.items():
+                        werr[k] = werr.get(k, 0.0) + v
+                np.random.seed(idx + 1)
+                cnt2 = S.sample(num_shots=N, one_state=one_lbl, p_false_pos=pfp, p_false_neg=pfn)
+                ctx.count("sampling_checks_with_detection_errors")
+                if n >= 2:
+                    ctx.count("sampling_checks_with_detection_errors_on_several_qudits")
+                if sum(cnt2.values()) != N:
+                    ctx.violation("bitstring-sampling", f"{sum(cnt2.values())} bitstrings for {N} shots", "bitstring-sampling:count")
+                for b, p in werr.items():
+                    sig = math.sqrt(max(p * (1 - p) * N, 1e-9))
+                    if abs(cnt2.get(b, 0) - p * N) > 6 * sig + 3:
+                        ctx.violation("bitstring-sampling", f"with p_false_pos={pfp}, p_false_neg={pfn}: {cnt2.get(b, 0)} x '{b}' in "
+                                      f"{N} shots, probability with independent flips {p:.5f} ({n} qudits)",
+                                      "bitstring-sampling:detection-errors")
+                        break
         except Exception as e:
             ctx.violation("observable-raises", f"apply raised {type(e).__name__}: {str(e)[:200]} ({n} qudits dim {dim} "
                           f"{eig} {kind})", f"observable-raises:{type(e).__name__}")
@@ -243,16 +268,24 @@ def w_run(ctx, rng, idx):
         noise = "dephasing"
     if noise in ("doppler", "amplitude") and (basis != "ground-rydberg" or modulated):
         noise = "depolarizing"
+    if idx % 12 == 8 and not modulated:
+        # state-preparation errors with a dissipative channel: the backend averages density matrices over the drawn
+        # configurations of badly prepared atoms, each weighted by how often it was drawn
+        noise = "spam+dephasing"
     # (doppler / amplitude: the backend averages several randomly perturbed runs; the observables are still defined
     #  with the sequence's own Hamiltonian on the averaged state)
     nm = {None: None, "dephasing": lambda: pulser.NoiseModel(dephasing_rate=0.8, hyperfine_dephasing_rate=0.3),
           "relaxation": lambda: pulser.NoiseModel(relaxation_rate=1.0),
           "depolarizing": lambda: pulser.NoiseModel(depolarizing_rate=0.7),
           "doppler": lambda: pulser.NoiseModel(temperature=300.0, runs=4, samples_per_run=1),
-          "amplitude": lambda: pulser.NoiseModel(amp_sigma=0.2, runs=4, samples_per_run=1)}[noise]
+          "amplitude": lambda: pulser.NoiseModel(amp_sigma=0.2, runs=4, samples_per_run=1),
+          "spam+dephasing": lambda: pulser.NoiseModel(state_prep_error=0.3, dephasing_rate=0.8, hyperfine_dephasing_rate=0.3,
+                                                      runs=12, samples_per_run=1)}[noise]
     nm = nm() if nm is not None else None
-    if noise in ("doppler", "amplitude"):
+    if noise in ("doppler", "amplitude", "spam+dephasing"):
         ctx.count("runs_with_stochastic_noise")
+    if noise == "spam+dephasing":
+        ctx.count("runs_with_state_preparation_errors_and_dissipation")
     pool = [0.0, 0.1, 0.25, 0.5, 0.77, 1.0, 0.1234, 0.6180339887]  # the last two fall between the nanoseconds of the grid
     defaults = gen.pick(rng, [[1.0], [0.5, 1.0], [0.0, 0.25, 1.0], "Full" if rng.random() < 0.3 else [0.1, 0.77]])
     own = sorted(rng.sample(pool, rng.randint(1, 3)))
@@ -301,6 +334,14 @@ def w_run(ctx, rng, idx):
 
     eig = ("r", "g") if basis == "ground-rydberg" else ("g", "h")
     one = 0 if basis == "ground-rydberg" else 1
+    for tk, S in states.items():
+        m = np.asarray(S.to_qobj().full())
+        tr = float(np.real(np.trace(m))) if m.shape[1] > 1 else float(np.real(np.vdot(m, m)))
+        ctx.count("stored_state_traces_checked")
+        if abs(tr - 1) > 1e-3:  # (the solvers keep the norm to about 1e-6)
+            ctx.violation("stored-state", f"the state stored at t={tk:.4f} ({noise or 'no'} noise) has trace / squared norm {tr!r}: "
+                          "not a state, and every observable is defined on it", "stored-state-not-normalised:" + str(noise))
+            break
     for o in obs:
         want = o.evaluation_times if o.evaluation_times is not None else (None if defaults == "Full" else defaults)
         try:
